@@ -101,7 +101,14 @@ def default_names(net):
 # ---------------------------------------------------------------------------
 def pname(tok):
     """declared name of a symbolic parameter: model parameters keep their keyword name"""
-    return tok[2:] if tok.startswith("g.") else "p_" + tok.replace(".", "_")
+    if tok.startswith("g."):
+        return tok[2:]
+    if tok.startswith("lp.0."):
+        # the parameters of the first link are declared under their plain attribute names (`rho_crit`, `a`, ...), as a
+        # user with one symbolic link would: a declared name that happens to be an element attribute means nothing to
+        # any other element
+        return tok.split(".")[-1]
+    return "p_" + tok.replace(".", "_")
 
 
 class Runner:
@@ -2332,6 +2339,35 @@ def run_C07(ctx):
                                 fail(out, f"C07:{tk}:shape", net, pv, None, f"CasADi {sym}: next {nm} of {el.name} has shape {el.next_states[nm].shape}, state {x.shape}")
             except Exception:
                 pass
+        # 4) ONE partial dictionary of initial conditions (only the control input of every origin that has one) handed to
+        #    successive steps on different engines: each step must create the variables the dictionary does not give, with its
+        #    own engine, and leave the dictionary as it was
+        try:
+            import casadi as cs_
+            ic = {}
+            for o_, el in R.origins.items():
+                if el in set(R.net.elements) and getattr(el, "_actions", None):
+                    nm_ = sorted(el._actions)[0]
+                    ic[el] = {nm_: {"r": 1.0, "q": 1000.0, "v_ctrl": 100.0}.get(nm_, 1.0)}
+            if ic:
+                before = {el: dict(v) for el, v in ic.items()}
+                for eng_name, eng in (("CasADi SX", impl.CsEngine("SX")), ("CasADi MX", impl.CsEngine("MX")), ("NumPy", impl.NpEngine("rand"))):
+                    with np.errstate(all="ignore"):
+                        R.net.step(init_conditions=ic, engine=eng, **R.step_kwargs())
+                    for el in list(R.links.values()) + list(R.origins.values()):
+                        if el.states and el in set(R.net.elements):
+                            for nm, x in el.next_states.items():
+                                if eng_name == "NumPy" and isinstance(x, (cs_.SX, cs_.MX)):
+                                    fail(out, f"C07:{tk}:partial-ic", net, pv, None, f"a partial dictionary of initial conditions re-used on the "
+                                         f"NumPy engine after CasADi steps: next {nm} of {el.name} is a {type(x).__name__}, not a finite number")
+                    if {el: dict(v) for el, v in ic.items()} != before:
+                        fail(out, f"C07:{tk}:partial-ic", net, pv, None, f"the dictionary of initial conditions was changed by the {eng_name} step: "
+                             f"{ {el.name: sorted(v) for el, v in ic.items()} } (given: { {el.name: sorted(v) for el, v in before.items()} })")
+                        break
+                out["coverage"]["evaluations"] += 1
+        except Exception as ex:
+            fail(out, f"C07:{tk}:partial-ic", net, pv, None, f"a partial dictionary of initial conditions handed to successive steps on "
+                 f"different engines: step raised {ex!r:.300}")
         distinct.add(tk)
     out = finish(out, distinct, data, RULE + "; plus random ARBITRARY small graphs (any attachment) filtered by the implementation's own "
                  "is_valid: every accepted network is stepped with NumPy (own variables; user arrays with (1,), 0-d and float "
